@@ -9,7 +9,8 @@ CFG = dict(
     modules=["PolyVerif.Props.C01", "PolyVerif.Props.C01Refine"],
     theorems=["op_frame", "op_writes_fresh_only", "step_immutable", "history_immutable",
               "derivations_commute_partial", "appendInPlace_breaks", "store_sites_fresh",
-              "op_refines", "append_refines", "run_bounded", "derivations_commute", "derivations_commute_reachable"],
+              "op_refines", "append_refines", "attrLen_forced", "run_bounded", "derivations_commute",
+              "derivations_commute_reachable"],
     helper_theorems=["step_valid", "run_valid", "empty_valid", "appliesInOrder_spec", "store_sites_cover",
                      "step_bounded", "empty_bounded", "pureOp_mono"],
     streams=[dict(name="c01", n=dict(quick=300, thorough=6000))],
@@ -22,6 +23,17 @@ CFG = dict(
         "reflect/unsafe reading of (data pointer, len, cap) and map identity of unexported Mesh fields; Go's non-moving GC",
     ],
     residue=[
+        "RAGGED MESHES / MAP ORDER: Mesh.AttributeLength() (modeling/mesh.go) returns the length of the first attribute Go's randomised map "
+        "iteration yields and SetFloatNAttribute does no length check, so for a mesh whose attribute arrays differ in length Append's index "
+        "shift / zero padding and ToPointCloud's index count vary from call to call. The model does not compute that value: Append and "
+        "ToPointCloud carry what AttributeLength() resolved to as a parameter, so op_frame / history_immutable hold for EVERY resolution "
+        "(unguarded, ragged meshes included), and op_refines / derivations_commute say: the result is a function of the observations AND of "
+        "that resolution (same operation value = same resolution in both orders). 'Same two observations in either order' is therefore a "
+        "statement about the code only when the resolution is forced, i.e. every mesh has one common attribute length (attrLen_forced); for "
+        "ragged arguments two runs of the code may differ (nondeterminism of the map order, not interference). The harness generates ragged "
+        "meshes: immutability re-reads as for every mesh; the value of a ragged Append is checked against the SET of outcomes "
+        "(c01.holds.append_in_set: pureAppend for some aLen in lengths(a), bLen in lengths(b)); no sharing-graph line and no re-derivation "
+        "for ragged arguments; ragged ToPointCloud: immutability only",
         "formats/gltf writer is outside the static store-site scan (it is a stateful Writer storing into its own buffers); it is covered by the value-level oracle only",
         "op_refines / derivations_commute hold for states satisfying the bounds invariant State.Bounded (every slice inside its array); "
         "run_bounded shows it is an invariant from the empty state; over merely Valid states (slices past the end of their array) the "
@@ -44,7 +56,7 @@ CFG = dict(
              "source), history_immutable (for every finite history of operations picking arguments anywhere in the pool - branching "
              "derivations included - and every growth policy of append, every mesh keeps the observation it had when it entered), "
              "op_refines (every operation returns meshes whose observable value is a PURE function pureOp of the observable values of its "
-             "arguments - for Append the transcribed loops are proved equal to pureAppend: concatenation, zero padding, index shift - whatever "
+             "arguments and - for Append / ToPointCloud - of what AttributeLength() resolved to, which Go's map order decides for ragged meshes - for Append the transcribed loops are proved equal to pureAppend: concatenation, zero padding, index shift - whatever "
              "the heap layout, spare capacities and growth policy), run_bounded (bounds invariant), derivations_commute / "
              "derivations_commute_reachable (two derivations from one base give the same two observations in either order), "
              "appendInPlace_breaks (closed witness of the old in-place Append), "
@@ -56,7 +68,14 @@ CFG = dict(
              "(d) a bit-exact value correspondence of the model's appendCopy AND of pureAppend with Mesh.Append.",
         note="Trusted: Lean kernel and the three standard axioms; the syntactic store-site extractor; the assignment of Go functions to "
              "operation classes (corresponded, not proved); reflect/unsafe observation; harness. The commutation theorem is for bounded states "
-             "(invariant from the empty state), not for arbitrary Valid ones. "
+             "(invariant from the empty state), not for arbitrary Valid ones. MAP ORDER: AttributeLength() follows Go's randomised map iteration; "
+             "for ragged meshes (attribute arrays of different lengths, accepted by SetFloatNAttribute) Append/ToPointCloud are not functions of "
+             "the observations: the model takes the resolved value as a parameter (immutability theorems hold for every resolution; op_refines / "
+             "derivations_commute are relative to it; unconditional only for meshes with one common attribute length, attrLen_forced). CALLER ALIASING: "
+             "NewMesh, SetIndices, SetMaterials, SetFloatNAttribute, SetFloatNData keep the caller's slice/map without copying and Materials() returns "
+             "the internal slice; a caller who later writes through a retained slice changes the mesh. The property speaks of operations (Mesh methods, "
+             "meshops, writers); mutation by the caller through retained memory is outside it, the harness never does it, and the theorems model the "
+             "caller's slices as fresh arrays nobody else writes. "
              "formats/gltf writer outside the static scan (value oracle only).",
         technique="Lean 4 proof (induction over operation histories on a heap model) + regenerated store-site obligations + heap-shape "
                   "and value correspondence",
